@@ -246,7 +246,11 @@ def seq_case(res, W, rng, seq, final, interval, disp, ji=0):
     if via_global:
         run_kwargs.pop("reconnect")
         res.count("runs_with_process_wide_reconnect_setting")
-    run, out, failure, S = execute(plan, run_kwargs, hooks, disp, enabled, url=url, process_reconnect=interval if via_global else None)
+    if ji % 2:
+        with H.ambient((ji, "C15"), res, dims=("app",)):
+            run, out, failure, S = execute(plan, run_kwargs, hooks, disp, enabled, url=url, process_reconnect=interval if via_global else None)
+    else:
+        run, out, failure, S = execute(plan, run_kwargs, hooks, disp, enabled, url=url, process_reconnect=interval if via_global else None)
     case = {"sequence": seq, "final": final, "interval": interval, "dispatcher": disp or "builtin", "on_reconnect": with_reconnect_cb,
             "ping": "ping_interval" in run_kwargs, "interval_set_by": "setReconnect" if via_global else "argument"}
     res.case((seq, final, interval, disp, with_reconnect_cb), nontrivial=len(seq) >= 1)
